@@ -1,51 +1,48 @@
 //go:build verif
 
-// Command zzprobe is a scratch probe (not part of any check): a one-node cluster fed raw byte strings.
+// Command zzprobe is a scratch probe (not part of any check): hostile RCONF arguments on a three-node cluster.
 package main
 
 import (
 	"fmt"
-	"net"
 	"os"
 	"strconv"
 	"time"
 
 	"rgverif/internal/cluster"
+	"rgverif/internal/respc"
 )
 
 func main() {
-	dir := "/dev/shm/zzprobe-dir"
-	os.RemoveAll(dir)
-	c, err := cluster.New(dir, 1, false, nil)
-	if err != nil {
-		panic(err)
-	}
-	defer c.Stop()
-	defer os.RemoveAll(dir)
-	if err := c.StartAll(); err != nil {
-		panic(err)
-	}
-	fmt.Println("writable", c.WaitAllWritable(90*time.Second))
-	for _, raw := range os.Args[1:] {
-		s, err := strconv.Unquote(`"` + raw + `"`)
+	for i, argv := range [][]string{{"rconf", "add", "4", "garbage"}, {"rconf", "add", "0", "http://127.0.0.1:1"}, {"rconf", "delete", "99"}, {"rconf", "update", "1", "x"}, {"rconf", "add", "4", ""}, {"rconf", "delete", "0"}} {
+		dir := "/dev/shm/zzprobe-dir" + strconv.Itoa(i)
+		os.RemoveAll(dir)
+		c, err := cluster.New(dir, 3, false, nil)
 		if err != nil {
-			fmt.Println("bad arg", raw, err)
-			continue
+			panic(err)
 		}
-		conn, err := net.DialTimeout("tcp", c.Nodes[0].Addr(), 5*time.Second)
-		if err != nil {
-			fmt.Println("dial:", err, "alive:", c.Alive())
-			fmt.Println(c.CrashLines()); for _, l := range c.Grep(1, []string{"panic", "fatal", "runtime error", "goroutine ", "server/", "logger"}, 300, 40) { fmt.Println(l) }
-			return
+		if err := c.StartAll(); err != nil {
+			panic(err)
 		}
-		conn.Write([]byte(s))
-		conn.SetReadDeadline(time.Now().Add(3 * time.Second))
-		buf := make([]byte, 4096)
-		n, err := conn.Read(buf)
-		fmt.Printf("%q -> %q err=%v alive=%v\n", s, buf[:n], err, c.Alive())
-		conn.Close()
-	}
-	if len(c.Alive()) == 0 {
-		fmt.Println(c.NodeLog(1, 40))
+		fmt.Println("writable", c.WaitAllWritable(90*time.Second))
+		a, _ := respc.Dial(c.Nodes[0].Addr(), 5*time.Second)
+		v, err := a.Do(argv...)
+		fmt.Println(argv, "->", v.String(), err)
+		time.Sleep(3 * time.Second)
+		fmt.Println("alive:", c.Alive(), "crash:", c.CrashLines())
+		for id := 1; id <= 3; id++ {
+			if cl, err := respc.Dial(c.Nodes[id-1].Addr(), 3*time.Second); err == nil {
+				cl.Timeout = 8 * time.Second
+				v, err := cl.Do("SET", "after", "1")
+				fmt.Println("  node", id, "SET ->", v.String(), err)
+				v, err = cl.Do("MEMBER", "LIST")
+				fmt.Println("  node", id, "MEMBER LIST ->", v.String(), err)
+				cl.Close()
+			} else {
+				fmt.Println("  node", id, "dial:", err)
+			}
+		}
+		c.Stop()
+		os.RemoveAll(dir)
 	}
 }
